@@ -163,22 +163,27 @@ def _worker_ctor(items, base):
         for v in range(2, 11):
             for mode in ("A", "S"):
                 cfg = rb.Cfg(v, mode)
-                try:
-                    e = th()
-                    text = rb.compile_cfg(gen_ctor.wrap(e), cfg)
-                except drive.PT_ERRORS:
-                    oc["pterr"] = oc.get("pterr", 0) + 1
-                    continue
-                except Exception as ex:
-                    oc["crash"] = oc.get("crash", 0) + 1
-                    continue
-                oc["ok"] = oc.get("ok", 0) + 1
-                issues, p = legality(text, cfg)
-                cnt["traces_validated"] = cnt.get("traces_validated", 0) + 1
-                cnt["instructions_checked"] = cnt.get("instructions_checked", 0) + len(p.instrs)
-                if issues:
-                    _report(out, issues, text, cfg, "ctor", 1, {"constructor": name},
-                            extra={"constructor_family": re.split(r"[\[\(]", name)[0]})
+                # alone, and behind an annotation (a comment op earlier in the program must not switch off any check)
+                for prefix in (None, "comment"):
+                    try:
+                        e = th()
+                        prog = gen_ctor.wrap(e)
+                        if prefix:
+                            prog = pt.Seq(pt.Comment("note"), prog)
+                        text = rb.compile_cfg(prog, cfg)
+                    except drive.PT_ERRORS:
+                        oc["pterr"] = oc.get("pterr", 0) + 1
+                        continue
+                    except Exception as ex:
+                        oc["crash"] = oc.get("crash", 0) + 1
+                        continue
+                    oc["ok"] = oc.get("ok", 0) + 1
+                    issues, p = legality(text, cfg)
+                    cnt["traces_validated"] = cnt.get("traces_validated", 0) + 1
+                    cnt["instructions_checked"] = cnt.get("instructions_checked", 0) + len(p.instrs)
+                    if issues:
+                        _report(out, issues, text, cfg, "ctor", 1, {"constructor": name, "prefix": prefix},
+                                extra={"constructor_family": re.split(r"[\[\(]", name)[0]})
         cnt["states"] = cnt.get("states", 0) + 1
         cnt["transitions"] = cnt.get("transitions", 0) + 18
     if items and base % 97 == 0:
@@ -325,7 +330,10 @@ def replay(case):
     else:
         th = dict(gen_ctor.entries())[c["constructor"]]
         try:
-            text = rb.compile_cfg(gen_ctor.wrap(th()), cfg)
+            prog = gen_ctor.wrap(th())
+            if c.get("prefix"):
+                prog = pt.Seq(pt.Comment("note"), prog)
+            text = rb.compile_cfg(prog, cfg)
         except drive.PT_ERRORS as e:
             print("now rejected:", e)
             return False
